@@ -4,6 +4,9 @@
  *   tgt <blob>                 state: the complete new file B
  *   case tmark=<+|0 per chunk> limit=<n> hdr=<hex>[;<hex>...] body=<blob> cuts=<spec> [xflags=<flags> xfile=<blob> xerrby=<n>]
  *        fill=<byte>           byte value missing extents are pre-filled with (default 0xAA)
+ *        hdr2=<hex>[;..] body2=<blob> between=<0|1|2|3>   a second response on the same zckDL: after the first one nothing (0),
+ *                              zck_dl_set_range again (1), zck_dl_reset + zck_dl_set_range (2) or zck_dl_reset alone (3), then the
+ *                              header lines hdr2 and the body body2 (whole, or one byte per call when cuts=all1)
  *        appcb=1               the application's own header and write callbacks are registered (zck_dl_set_header_cb, ..._write_cb,
  *                              with their data pointers) as zck.h documents; they accept everything and record what they were given -
  *                              the library's callbacks must behave as without them and hand every byte on exactly once
@@ -24,6 +27,7 @@
 typedef struct {
     blob *tgt; char *tmark; int limit; blob hdr[8]; int nhdr; blob body; char *cuts;
     char *xflags; blob xfile; int has_x; long xerrby; int fill; int appcb, cbshape;
+    blob hdr2[8]; int nhdr2; blob body2; int has2, between;
     long mask[16][2]; int nmask;   /* file byte ranges (inclusive) the expectation does not cover */
 } fcase;
 typedef struct { fcase *cases; int n; } fctx;
@@ -94,9 +98,27 @@ static outcome run_partition(fcase *k, const blob *t0, const long *cuts, int ncu
         blob_free(&piece);
         pos = end;
     }
+    if(k->has2 && o.bad < 0) {
+        if(k->between == 2 || k->between == 3) zck_dl_reset(dl);
+        if(k->between == 1 || k->between == 2) zck_dl_set_range(dl, range);
+        for(int i = 0; i < k->nhdr2; i++) {
+            blob h = blob_dup(k->hdr2[i].p, k->hdr2[i].n);
+            zck_header_cb((char *)h.p, 1, h.n, dl);
+            blob_free(&h);
+        }
+        size_t step = !strcmp(k->cuts, "all1") ? 1 : (k->body2.n ? k->body2.n : 1);
+        for(size_t q = 0; q < k->body2.n; q += step) {
+            size_t len = k->body2.n - q < step ? k->body2.n - q : step;
+            blob piece = blob_dup(k->body2.p + q, len);
+            size_t r = zck_write_chunk_cb(piece.p, 1, len, dl);
+            blob_free(&piece);
+            o.nb++;
+            if(r != len) { o.bad = o.nb - 1; o.badend = -3; break; }
+        }
+    }
     /* every accepted byte must have reached the application's callbacks, once and in order (an invocation the library refused
      * may or may not have been handed on); reported as an invocation failure so that every oracle sees it */
-    if(k->appcb && o.bad < 0 && (ah.n != eh.n || ah.sum != eh.sum || aw.n != ew.n || aw.sum != ew.sum)) { o.bad = 9999; o.badend = -2; }
+    if(k->appcb && !k->has2 && o.bad < 0 && (ah.n != eh.n || ah.sum != eh.sum || aw.n != ew.n || aw.sum != ew.sum)) { o.bad = 9999; o.badend = -2; }
     int n = 0;
     zck_clear_error(zck);   /* a recoverable error left by a refused response must not hide the markings */
     for(zckChunk *ch = zck_get_first_chunk(zck); ch && n < 62; ch = zck_get_next_chunk(ch)) {
@@ -277,6 +299,15 @@ int cmd_feed(FILE *job, FILE *out) {
             free(h);
             k.body = blob_arg(kv(t, n, "body", "-"));
             k.cuts = strdup(kv(t, n, "cuts", "-"));
+            if(kv(t, n, "body2", NULL)) {
+                k.has2 = 1;
+                k.between = (int)kvi(t, n, "between", 0);
+                k.body2 = blob_arg(kv(t, n, "body2", "-"));
+                char *h2 = strdup(kv(t, n, "hdr2", "-")), *sv = NULL;
+                for(char *p = strtok_r(h2, ";", &sv); p && k.nhdr2 < 8; p = strtok_r(NULL, ";", &sv))
+                    if(strcmp(p, "-")) k.hdr2[k.nhdr2++] = blob_from_hex(p);
+                free(h2);
+            }
             k.appcb = (int)kvi(t, n, "appcb", 0);
             k.cbshape = (int)kvi(t, n, "cbshape", 0);
             const char *xf = kv(t, n, "xflags", NULL);
